@@ -110,6 +110,8 @@ type runReport struct {
 	ReplayOK     int                 `json:"replays_confirmed,omitempty"`
 	ReplayFail   int                 `json:"replays_not_reproduced,omitempty"`
 	Truncated    bool                `json:"truncated,omitempty"`
+	Retries      int                 `json:"solver_unknown_retried_in_fresh_context,omitempty"`
+	RetriesOK    int                 `json:"solver_unknown_decided_by_retry,omitempty"`
 }
 
 func Main(args []string) int {
@@ -125,6 +127,7 @@ func Main(args []string) int {
 	verbose := fs.Bool("v", false, "verbose")
 	maxPaths := fs.Int("max-paths", 0, "stop after this many paths (inconclusive)")
 	replayFile := fs.String("replay", "", "replay a stored counterexample file natively")
+	prefixFlag := fs.String("prefix", "", "debugging: comma-separated engine decision prefix to explore below (use with -run)")
 	if err := fs.Parse(args); err != nil {
 		return 2
 	}
@@ -227,6 +230,16 @@ func Main(args []string) int {
 			if *tier == "thorough" && opts.QueryTimeoutMs == 0 {
 				opts.QueryTimeoutMs = 120000
 			}
+			// engine self-test only: force solver timeouts to exercise the unknown paths
+			if ms, err := strconv.Atoi(os.Getenv("GOSYM_FORCE_QUERY_MS")); err == nil && ms > 0 {
+				opts.QueryTimeoutMs = ms
+			}
+			if *prefixFlag != "" {
+				for _, x := range strings.Split(*prefixFlag, ",") {
+					v, _ := strconv.ParseInt(strings.TrimSpace(x), 10, 64)
+					opts.StartPrefix = append(opts.StartPrefix, v)
+				}
+			}
 			if rc.TimeoutS > 0 {
 				opts.Budget = time.Duration(rc.TimeoutS) * time.Second
 			}
@@ -268,7 +281,11 @@ func Main(args []string) int {
 				Obligations: sum.Obligations, Discharged: sum.Discharged, Inconclusive: sum.Inconclusive,
 				OOE: sum.OOE, BoundExc: sum.BoundExceeded, Errors: sum.Errors, Known: sum.Known, Reached: sum.Reached,
 				SolverS: sum.SolverTime.Seconds(), WallS: sum.Wall.Seconds(), LoadS: w.LoadTime.Seconds(), Packages: w.NPackages,
-				Msgs: sum.Msgs, Samples: sum.Samples, Truncated: sum.Truncated}
+				Msgs: sum.Msgs, Samples: sum.Samples, Truncated: sum.Truncated,
+				Retries: sum.Retries, RetriesOK: sum.RetriesResolved}
+			if sum.Retries > 0 {
+				fmt.Printf("  (run %s: %d solver 'unknown' answers retried in a fresh context, %d decided by the retry)\n", rc.Name, sum.Retries, sum.RetriesResolved)
+			}
 			if rev {
 				rep.Name += "/map-order-reversed"
 			}
